@@ -38,7 +38,7 @@ SSE_PROGS = [
     (1, {"a": ["sub1", "pub1", "close1"], "b": ["pub2", "mark1", "pub3"], "c": ["onc1", "rm", "count"]}),
 ]
 SSE_PROGS_T = [
-    (2, {"a": ["sub1", "pub1", "pub2", "close2"], "b": ["sub2", "pub3", "mark1"], "c": ["onc1", "onc2", "close1"], "d": ["pub4", "rm"]}),
+    (2, {"a": ["sub1", "pub1", "pub2", "close2"], "b": ["sub2", "pub3", "mark1"], "c": ["onc1", "onc2", "close1"]}),
 ]
 WS_PROGS = [
     (2, {"a": ["sub1", "pub1", "pub2"], "b": ["sub2", "unsub1", "pub3", "count"], "c": ["deact2", "pub4", "sub1"]}),
